@@ -763,6 +763,20 @@ def judge(pq, ctx, case, tier):
         return
     ctx.c["shrunk_failures"] += 1
     small = shrink(pq, ctx, case, tier, set(kinds))
+    # the smallest failing circuit may fail through a known defect alone (an exotic block shape whose realigned variant still
+    # meets the leaked-outcome raise: seen at seed 0 once the idle machine let the shard reach that case): rule 0 on it
+    fs = features(small["circuit"])
+    sub = Ctx()
+    sp = [p_ for p_ in evaluate(pq, sub, dict(small, shots=0), tier, count=False) if p_[0] != "skipped"]
+    if (sorted({p_[0] for p_ in sp}) == ["execute-raises:PiquassoException[emitted-angles]"] and fs["if"] and fs["k"]
+            and all("Unexpected outcomes" in p_[1] for p_ in sp)):
+        if SELFTEST_MODE["on"]:
+            ctx.obs.add("selftest mode: finding if_test-condition-raises-on-leaked-outcome-of-rounded-cz of the unchanged tree seen and not reported")
+            return
+        ctx.viol("if_test-condition-raises-on-leaked-outcome-of-rounded-cz",
+                 "%s | smallest failing circuit (fails through the condition raise alone; its exact-angle variant agrees with the qubit "
+                 "reference): %s" % (msg, json.dumps(small["circuit"])), case)
+        return
     g = sorted({n.split(":")[-1] for n in features(small["circuit"])["names"]})
     cond = "+if_test" if features(small["circuit"])["if"] else ""
     ctx.viol("%s:%s%s" % (kinds[0], "+".join(g), cond), "%s | smallest failing circuit: %s" % (msg, json.dumps(small["circuit"])), case)
